@@ -1572,17 +1572,22 @@ impl WriteTaskState {
 
         let LaneData { target, response } = response;
         if let Some(remote_id) = target {
+            if !write_tracker.has_remote(remote_id) {
+                trace!(response = ?response, "Discarding response for detached remote {}.", remote_id);
+                return Either::Left(Writes::Zero);
+            }
             trace!(response = ?response, "Routing response to {}.", remote_id);
-            links.count_single(id);
             let write = if !links.is_linked(remote_id, id) {
                 trace!(response = ?response, "Sending implicit linked message to {}.", remote_id);
                 links.insert(id, remote_id);
+                links.count_single(id);
                 let write1 = write_tracker.push_special(SpecialAction::Linked(id), &remote_id);
                 let write2 = write_tracker
                     .push_write(id, response, &remote_id)
                     .unwrap_or_else(discard_error);
                 Writes::from((write1, write2))
             } else {
+                links.count_single(id);
                 Writes::from(
                     write_tracker
                         .push_write(id, response, &remote_id)
